@@ -237,13 +237,14 @@ pub fn exec(m: Mode, spec: &Spec, r: &mut RunResult) {
                 let op = &spec.ops[i];
                 let cfg = &spec.slots[op.slot];
                 let mut sig = format!("{}:differs", cfg.kind());
-                if overlap {
+                if overlap || crate::ssim::overlap_tag(&spec.world, op.goal) {
                     sig.push_str("+overlap");
                 }
                 if let (Out::Ans(x), Out::Ans(y)) = (&a.out, &b.out) {
                     let amb = |s: &Sol| s.as_ref().map(|x| x.is_ambig()).unwrap_or(false);
                     if (amb(x) || amb(y)) && (world2.is_some() || cmp::contradiction(x, y).is_none()) {
-                        sig.push_str("+weaker");
+                        // one answer Unique and the other its ambiguous form, or two ambiguous answers with different guidance
+                        sig.push_str(if amb(x) && amb(y) { "+guidance-differs" } else { "+unique-vs-ambig" });
                     }
                 }
                 if let Some((prog, goals)) = &frag {
